@@ -50,6 +50,8 @@ def boot(numpy=False):
     finally:
         sys.argv = argv
     logging.disable(logging.CRITICAL)
+    import warnings
+    warnings.filterwarnings('ignore', category=RuntimeWarning, message='coroutine .* was never awaited')
     src = os.path.abspath(mpyc.__file__)
     if not src.startswith(os.path.abspath(REPO) + os.sep):
         raise RuntimeError(f'mpyc imported from {src}, not from {REPO}')
